@@ -217,7 +217,8 @@ def model_text(model, st=None, extra_sections=None):
   secs.append("\n".join(t))
 
   def keyfmt(a, b, arrow):
-    return st.pick(["%s%s%s", "%s %s %s", "%s%s %s"]) % (a, arrow, b)
+    # white space around the '-' / '->' of a key means nothing; form feed and vertical tab are white space, too
+    return st.pick(["%s%s%s", "%s %s %s", "%s%s %s", "%s%s%s", "%s %s %s", "%s\x0c%s\x0c%s", "%s\x0b%s%s", "%s%s \x0c%s"]) % (a, arrow, b)
 
   if model.get("pair") is not None:
     s = ["[Pair]"]
